@@ -1,6 +1,7 @@
 package scen
 
 import (
+	"sort"
 	"bytes"
 	"encoding/binary"
 	"fmt"
@@ -81,7 +82,7 @@ func runC20(c *Ctx) {
 	answering := 0
 	deaf := 0
 	for _, addr := range realms[realmName] {
-		tb := []string{"reply-close", "reply-open", "partial", "partial-close", "close", "silent", "refuse", "blackhole", "drip", "reply-krb-error", "garbage", "deaf", "close-then-silent"}[c.T.Choose(13)]
+		tb := []string{"reply-close", "reply-open", "partial", "partial-close", "close", "silent", "refuse", "blackhole", "drip", "reply-krb-error", "garbage", "deaf", "close-then-silent", "reply-pieces", "reply-pieces"}[c.T.Choose(15)]
 		ub := []string{"reply-open", "silent", "refuse", "refuse"}[c.T.Choose(4)]
 		if tb == "blackhole" {
 			// connection attempts get no answer at all (packets dropped on the way)
@@ -104,6 +105,15 @@ func runC20(c *Ctx) {
 			kd1 := c.W.AddKDC("tcp", addr, tb, reply)
 			// (a dripped reply takes 6-40 s in all: longer than the proxy waits)
 			kd1.DripGap = time.Duration(1+c.T.Choose(4)) * time.Second
+			if tb == "reply-pieces" {
+				// 2-4 segments, 1-300 ms apart; the first may end inside the length prefix, right
+				// behind it, or anywhere in the body
+				for k := 1 + c.T.Choose(3); k > 0; k-- {
+					kd1.Cuts = append(kd1.Cuts, []int{1 + c.T.Choose(3), 1 + c.T.Choose(999), 1 + c.T.Choose(999)}[c.T.Choose(3)])
+				}
+				sort.Ints(kd1.Cuts)
+				kd1.PieceGap = time.Duration(1+c.T.Choose(300)) * time.Millisecond
+			}
 			kdcs = append(kdcs, kd1)
 		}
 		if ub != "refuse" {
